@@ -340,7 +340,7 @@ def cmp_oracle(case):
     is processed first"""
     out = []
     for i, ch in enumerate(case.checks):
-        if not ch.startswith("pycmp"):
+        if not ch.startswith("pycmp "):
             continue
         k = ch.split()[1]
         t = case.reqs.get(k, "").split()
@@ -356,6 +356,27 @@ def cmp_oracle(case):
         want = "Greater" if o > 0 else "Less"
         if impl.split()[:1] != [want]:
             out.append((i, "events at one point ordered against the exact orientation: got %s, the exact order is %s" % (impl[:20], want)))
+    # `pyanti k1 k2`: compare_segments(a, b) and compare_segments(b, a) are opposite wherever the event order
+    # of the two left events is antisymmetric (`C15_compareSegments_antisymmetric`): not for two collinear
+    # segments of one operand starting in one point
+    for i, ch in enumerate(case.checks):
+        if not ch.startswith("pyanti"):
+            continue
+        _, k1, k2 = ch.split()
+        t = case.reqs.get(k1, "").split()
+        if len(t) != 17 or t[0] != "CMPSEG":
+            continue
+        P1 = (num.dec(t[3]), num.dec(t[4])); A1 = (num.dec(t[8]), num.dec(t[9])); op1 = t[6]
+        P2 = (num.dec(t[10]), num.dec(t[11])); A2 = (num.dec(t[15]), num.dec(t[16])); op2 = t[13]
+        if (P1, A1, op1, t[7]) == (P2, A2, op2, t[14]):
+            continue
+        o = (P1[0] - A2[0]) * (A1[1] - A2[1]) - (P1[1] - A2[1]) * (A1[0] - A2[0])
+        if P1 == P2 and o == 0 and op1 == op2:
+            continue
+        r1, r2 = case.impl.get(k1, "").split()[:1], case.impl.get(k2, "").split()[:1]
+        opposite = {"Less": "Greater", "Greater": "Less", "Equal": "Equal"}
+        if r1 and r2 and r1[0] in opposite and r2 != [opposite[r1[0]]]:
+            out.append((i, "compare_segments is not antisymmetric on this pair: (a,b) gives %s, (b,a) gives %s" % (r1[0], r2[0] if r2 else "?")))
     return out
 
 
@@ -486,8 +507,9 @@ def order_cases_f32(rng, n):
                 k2 = c.run("CMPEV f32 %s %s" % (e2, e1))
                 c.check("pycmp %d" % k1)
                 c.check("pycmp %d" % k2)
-                c.run("CMPSEG f32 0 %s %s" % (e1, e2))
-                c.run("CMPSEG f32 0 %s %s" % (e2, e1))
+                ka = c.run("CMPSEG f32 0 %s %s" % (e1, e2))
+                kb = c.run("CMPSEG f32 0 %s %s" % (e2, e1))
+                c.check("pyanti %d %d" % (ka, kb))
             c.run("ORIENT f32 %s %s %s" % (_pt(P), _pt(A), _pt(B)))
         cases.append(c)
     return cases
@@ -503,8 +525,9 @@ def order_cases(rng, n):
             for (s1, s2) in ((True, False), (False, True)):
                 e1 = _event(a0, a1, s1, 1) if _before(a0, a1) else _event(a1, a0, s1, 1)
                 e2 = _event(b0, b1, s2, 2) if _before(b0, b1) else _event(b1, b0, s2, 2)
-                c.run("CMPSEG f64 0 %s %s" % (e1, e2))
-                c.run("CMPSEG f64 0 %s %s" % (e2, e1))
+                ka = c.run("CMPSEG f64 0 %s %s" % (e1, e2))
+                kb = c.run("CMPSEG f64 0 %s %s" % (e2, e1))
+                c.check("pyanti %d %d" % (ka, kb))
             p, a, b = _near_collinear_events(rng)
             for (s1, s2) in ((True, True), (True, False)):
                 k1 = c.run("CMPEV f64 %s %s" % (_event(p, a, s1, 1), _event(p, b, s2, 2)))
@@ -531,8 +554,9 @@ def order_cases(rng, n):
             a, b = (p1, q1) if _before(p1, q1) else (q1, p1)
             cc, d = (p2, q2) if _before(p2, q2) else (q2, p2)
             cid2 = rng.choice([1, 2, 3])
-            c.run("CMPSEG f64 0 %s %s" % (_event(a, b, s1, 2), _event(cc, d, s2, cid2)))
-            c.run("CMPSEG f64 0 %s %s" % (_event(cc, d, s2, cid2), _event(a, b, s1, 2)))
+            ka = c.run("CMPSEG f64 0 %s %s" % (_event(a, b, s1, 2), _event(cc, d, s2, cid2)))
+            kb = c.run("CMPSEG f64 0 %s %s" % (_event(cc, d, s2, cid2), _event(a, b, s1, 2)))
+            c.check("pyanti %d %d" % (ka, kb))
             c.run("CMPSEG f64 1 %s" % _event(a, b, s1, 2))
         cases.append(c)
     return cases
